@@ -5,7 +5,7 @@
    (1 policy disable offered ae zstd ct ((id encfail)...) gerr closefail limit inflight trailer registry
       (status ct_hdr cenc plain decomp_ok chunks complete counters gathers done panic))
         one request through HandlerFor / HandlerForTransactional
-   (2 limit ((0 t)|(1 t p) ...) (outcome...) peak gathers dones n503)
+   (2 limit ((0 t)|(1 t p)|(2 t) ...) (outcome...) peak gathers dones n503)
         a scripted schedule of concurrent requests against a blocking gatherer
    (3 limit reqs n200 n503 peak gathers dones)
         free-running concurrent requests (specification only) *)
@@ -28,6 +28,7 @@ Definition d_ev (s : sx) : option ev :=
   match s with
   | SL [SZ 0; SZ t] => Some (Start t)
   | SL [SZ 1; SZ t; p] => option_map (End t) (dB p)
+  | SL [SZ 2; SZ t] => Some (TimedOut t)
   | _ => None
   end.
 
